@@ -541,7 +541,9 @@ def happy_path(store, nreq, faults=()):
         ops.append(("cand", g, 1 + i % 4, [i, 2, 3], 8, 9, "none", 0))
         ops.append(("settle", "a", g, c, "n")); g += 1
         ops.append(("retry", "a", c)); c += 1
+        ops.append(("grant", "a", i))          # settled (any kind): no further work grant, live ...
         ops.append(("recover", "a"))
+        ops.append(("grant", "a", i))          # ... and after recovery
         ops.append(("adm", "a", i))
     return render_case(store, ops)
 
@@ -558,7 +560,7 @@ def ceiling_case(store, ln, maxb=MAXB):
     return render_case(store, ops)
 
 
-ABSTRACT = ["req0", "req0-flushfault", "req0-acklost", "claim0", "claim0-acklost", "settle0", "settle0-flushfault",
+ABSTRACT = ["req0", "req0-flushfault", "req0-acklost", "claim0", "claim0-acklost", "settle0", "settle0-unknown", "settle0-flushfault",
             "retry0", "recover", "trunc", "req1"]
 
 
@@ -586,8 +588,9 @@ def expand_abstract(store, seq):
         elif a.startswith("settle0"):
             emit(("grant", "a", 0))
             g = last(sim.grants)
-            emit(("cand", g, 1, [1, 2, 3], 8, 9, "none", 0))
+            emit(("cand", g, 4 if a.endswith("unknown") else 1 + len(ops) % 3, [1, 2, 3], 8, 9, "none", 0))
             emit(("settle", "a", g, max(len(sim.cands) - 1, 0), "f" if a.endswith("flushfault") else "n"))
+            emit(("grant", "a", 0))   # a settled request must not yield another work grant
         elif a == "retry0":
             emit(("retry", "a", max(len(sim.cands) - 1, 0)))
         elif a == "recover":
@@ -595,6 +598,9 @@ def expand_abstract(store, seq):
         elif a == "trunc":
             emit(("trunc", "a"))
     emit(("adm", "a", 0))
+    emit(("grant", "a", 0))
+    emit(("recover", "a"))
+    emit(("grant", "a", 0))
     return render_case(store, ops)
 
 
@@ -688,7 +694,7 @@ def run(tier, seed, replay=None):
         cases = [d["replay"]["case"]] if "case" in d.get("replay", {}) else []
     else:
         cases = vf.load_corpus(PROP)
-        cases += [happy_path("mem", 2), happy_path("fs", 2), happy_path("mem", 3, "afs"), happy_path("fs", 4, "afst")]
+        cases += [happy_path("mem", 4), happy_path("fs", 2), happy_path("mem", 3, "afs"), happy_path("fs", 4, "afst")]
         if tier == "thorough":
             cases += exhaustive("mem", 2)   # every sequence of <= 2 abstract actions also goes through the model
         n = 28 if tier == "quick" else 300
@@ -729,7 +735,7 @@ def run(tier, seed, replay=None):
         except vf.Broken as e:
             r.is_broken("sweep-run", e)
     r.cov["exhaustive_sweep_cases_impl_oracle"] = sweep_n
-    r.cov["exhaustive_sweep_rule"] = ("all sequences of length <= 2 (quick) / 4 (thorough) over 11 abstract actions "
+    r.cov["exhaustive_sweep_rule"] = ("all sequences of length <= 2 (quick) / 4 (thorough) over 12 abstract actions "
                                       f"{ABSTRACT} on the in-memory store, and <= 1 / 2 on the filesystem store, oracle only")
     for i, o in enumerate(oracle):
         if o != "ok":
